@@ -21,12 +21,17 @@ var c10HasValue = [][2]string{
 	{`$boolean([])`, `false`}, {`$map([1], function($v){nothing}) ~> $count`, `0`}, {`function($x){$count($x)}(nothing)`, `0`}, {`function($x, $y){$y}(nothing, 3)`, `3`},
 	{`$.(1)`, ``}, {`$.{"a":1}`, ``}, {`$.[1]`, ``}, {`$[true].(1)`, ``}, {`$.$count($)`, ``}, {`$`, ``}, {`$$`, ``}, {`$$.(1)`, ``}, {`$.a`, ``}, {`$[0]`, ``}, {`$^($).(1)`, ``}, {`*.(1)`, ``}, {`**.(1)`, ``},
 	{`function($x)<x+>{$x[0]}(nothing)`, ``}, {`function($x)<n+>{$x[0]}(nothing)`, ``}, {`(nothing ~> function($x)<x+>{$x})[0]`, ``},
+	// callbacks that yield no value for some or all members: nothing takes their place
+	{`$each({"a":1}, function($v){nothing})`, ``}, {`$each({"a":1,"b":2}, function($v){$v.zz})`, ``}, {`$sift({"a":1}, function($v){false})`, ``},
+
 	{`$length().x`, ``}, {`$string().$length()`, ``}, {`$type().$`, ``}, {`$spread()[]`, ``}, {`$uppercase().$`, ``}, {`$number().($ + 1)`, ``}, {`$keys().$`, ``},
 	{`nothing{"k": $.(1)}.k`, ``}, {`$.($x := 1; $x)`, ``}, {`($.(1))`, ``}, {`$.(1) ~> $string()`, ``}, {`$.$string()`, ``},
 	{`function($a)<n+>{$a}(1, nothing)`, `[1]`}, {`function($x)<x+>{$count($x)}(nothing)`, `0`}, {`$exists(function($x)<x+>{$x[0]}(nothing))`, `false`},
 	// a null made by the program is a value, also as the context item
 	{`[null].$`, `null`}, {`[1, null, 2].$`, `[1,null,2]`}, {`[null].$exists($)`, `true`}, {`[null, 1].{"v": $}`, `[{"v":null},{"v":1}]`}, {`{"a": null}.a.$`, `null`},
 	{`[null, 1][$ = null]`, `null`}, {`[null].($)`, `null`}, {`$map([null], function($v){$v})`, `[null]`}, {`[null].$type($)`, `"null"`}, {`[[null]].$count($)`, `1`},
+	{`$each({"a":1,"b":2}, function($v){$v > 1 ? $v})`, `2`}, {`$count($each({"a":1,"b":2,"c":3}, function($v){$v > 1 ? $v}))`, `2`}, {`$map([1,2,3], function($v){$v > 1 ? $v})`, `[2,3]`},
+	{`$exists($each({"a":1}, function($v){nothing}))`, `false`}, {`$each({"a":1,"b":2}, function($v, $k){$k = "b" ? $v})`, `2`}, {`[$each({"a":1}, function($v){nothing})]`, `[]`},
 	{`nothing{"k": $type().$}`, `{}`}, {`$exists(nothing{"k": $string().$length()}.k)`, `false`}, {`nothing{"k": $spread()[]}`, `{}`},
 	{`$map([1,2], function($v){nothing ~> $count})`, `[0,0]`}, {`(nothing; 1)`, `1`}, {`($x := nothing; $exists($x))`, `false`}, {`$reduce([1,2], function($a,$b){$a + $b}, nothing)`, `3`},
 }
